@@ -762,6 +762,10 @@ def run(prog, rep, tier):
              'parameter binding does not reach an in-place write)')
     if check_options_readonly(prog, rep) < 2:
         raise AnalysisError('OPTIONS-readonly: calls handing option entries to methods not found')
+    rep.rule('RESUME-empty-stats', 'reads of the last statistics entry reachable from '
+             'stopping_criterion() before the first iteration are dominated by an emptiness test')
+    if check_empty_stats(prog, rep) < 6:
+        raise AnalysisError('RESUME-empty-stats: fewer than 6 last-entry reads in is_converged')
     rep.floor('CRASH-typestate', 8)
     rep.floor('RESUME-order', 2)
     rep.floor('RESUME-keys', 3)
@@ -1241,4 +1245,60 @@ def check_options_readonly(prog, rep):
                         '(self.options); they are saved in every checkpoint, so the resumed '
                         'simulation is configured without / with the changed entry'
                         % (key_text(st)[:60], nm, gq), st.lineno)
+    return n
+
+
+# ------------------------------------------------------------------ RESUME-empty-stats
+def check_empty_stats(prog, rep):
+    """RESUME-empty-stats: a resumed engine restores `sweeps` but starts with the empty statistics
+    of reset_stats(); IterativeSweeps.run() asks stopping_criterion() -> is_converged() BEFORE the
+    first iteration. Every read of the last entry of a statistics list (`self.sweep_stats[k][-1]`,
+    `self.update_stats[k][-1]`) in a method reachable from stopping_criterion is therefore
+    dominated by an emptiness test of such a list (typestate: lists are EMPTY until
+    run_iteration ran)."""
+    ct = prog.classtable()
+    base = ct.get('IterativeSweeps')
+    if base is None:
+        raise AnalysisError('class IterativeSweeps not found')
+    n = 0
+    seen = set()
+    for ci in ct.cone(base):
+        for start in ('stopping_criterion', 'is_converged'):
+            owner, f = ct.resolve_method(ci, start)
+            if f is None or id(f) in seen:
+                continue
+            seen.add(id(f))
+            reads = []
+            for st in stmts_of(f):
+                if isinstance(st, (ast.If, ast.For, ast.While, ast.Try, ast.With)):
+                    continue
+                for x in ast.walk(st):
+                    if isinstance(x, ast.Subscript) and isinstance(x.value, ast.Subscript) and \
+                            unparse(x.value.value) in ('self.sweep_stats', 'self.update_stats') and \
+                            unparse(x.slice) == '-1' and isinstance(x.ctx, ast.Load):
+                        reads.append((st, x))
+            if not reads:
+                continue
+            cfg = CFG(f)
+
+            def guard(nd):
+                s = nd.stmt
+                if not isinstance(s, ast.If):
+                    return False
+                t = unparse(s.test)
+                return ('len(self.sweep_stats[' in t or 'len(self.update_stats[' in t or
+                        'not self.sweep_stats[' in t or 'not self.update_stats[' in t)
+            for st, x in reads:
+                n += 1
+                ok = cfg.dominators_like_before(st, guard)
+                rep.instance('RESUME-empty-stats', {'function': '%s.%s' % (owner.name, f.name),
+                                                    'read': unparse(x), 'guarded': ok})
+                if not ok:
+                    rep.violation('RESUME-empty-stats', owner.module, '%s.%s' % (owner.name, f.name),
+                                  'unguarded-last:' + unparse(x),
+                                  '`%s` is read on a path without an emptiness test of the '
+                                  'statistics: run() calls stopping_criterion() -> is_converged() '
+                                  'before the first sweep, and a resumed engine (sweeps restored, '
+                                  'statistics reset) raises IndexError here' % unparse(x),
+                                  x.lineno)
     return n
